@@ -152,3 +152,62 @@ def declbatch(pid, stage, tier, seed, outdir, chk):
         lock.close()
     merged["wall"] = time.time() - t0
     return merged
+
+
+def fuzz_c03(pid, stage, tier, seed, outdir, chk):
+    """C03 (d): coverage-guided op lists (libFuzzer via cargo-fuzz, ASan, debug assertions off) into the lean driver."""
+    import subprocess, time, glob, re, shutil
+    t0 = time.time()
+    merged = chk.new_merge()
+    merged["stage"] = "libfuzzer+asan/C03 lean driver"
+    merged["stage_extra"] = {}
+    fdir = os.path.join(chk.HARNESS, "fuzz")
+    tdir = os.path.join(chk.BUILD, "fuzz")
+    corpus = os.path.join(chk.BUILD, "fuzz-corpus")
+    art = os.path.join(outdir, "fuzz-art")
+    shutil.rmtree(art, ignore_errors=True)
+    os.makedirs(art, exist_ok=True)
+    os.makedirs(corpus, exist_ok=True)
+    if not os.path.exists(os.path.join(fdir, "Cargo.lock")):
+        shutil.copy(os.path.join(chk.HARNESS, "Cargo.lock"), os.path.join(fdir, "Cargo.lock"))
+    env = dict(chk.ENV_BASE, CARGO_TARGET_DIR=tdir)
+    p = subprocess.run(["cargo", "+nightly", "fuzz", "build", "ops"], cwd=fdir, env=env, stdout=subprocess.PIPE, stderr=subprocess.STDOUT, text=True)
+    if p.returncode != 0:
+        return {"build_error": "cargo fuzz build failed: " + p.stdout[-1500:]}
+    secs = stage.get("seconds", 120)
+    cmd = ["cargo", "+nightly", "fuzz", "run", "ops", corpus, "--", "-max_total_time=%d" % secs, "-timeout=10", "-len_control=0", "-max_len=512",
+           "-seed=%d" % seed, "-fork=%d" % chk.NCPU, "-ignore_crashes=1", "-artifact_prefix=%s/" % art, "-print_final_stats=1"]
+    try:
+        r = subprocess.run(cmd, cwd=fdir, env=env, stdout=subprocess.PIPE, stderr=subprocess.STDOUT, text=True, timeout=secs + 600)
+        out = r.stdout
+    except subprocess.TimeoutExpired as e:
+        merged["inconclusive"].append("libFuzzer: wall-clock watchdog")
+        out = (e.stdout or b"").decode("utf8", "replace") if isinstance(e.stdout, bytes) else (e.stdout or "")
+    runs = 0
+    for m in re.finditer(r"#(\d+): cov: (\d+)", out):
+        runs = max(runs, int(m.group(1)))
+    cov = re.findall(r"cov: (\d+)", out)
+    merged["evaluations"] = runs
+    merged["cases"] = runs
+    merged["counters"]["c03.fuzz.runs"] = runs
+    merged["counters"]["c03.fuzz.corpus_files"] = len(os.listdir(corpus))
+    merged["stage_extra"]["coverage_edges"] = int(cov[-1]) if cov else 0
+    ok, vrun = chk.build_variant("dbg")
+    for f in sorted(glob.glob(os.path.join(art, "crash-*")) + glob.glob(os.path.join(art, "oom-*")) + glob.glob(os.path.join(art, "timeout-*")))[:20]:
+        kind = os.path.basename(f).split("-")[0]
+        if kind != "crash":
+            merged["inconclusive"].append("libFuzzer %s artifact (not a violation): %s" % (kind, f))
+            continue
+        sess = ""
+        if ok:
+            sess = subprocess.run([vrun, "decode-fuzz", f], stdout=subprocess.PIPE, text=True, env=chk.ENV_BASE).stdout.strip()
+        # reproduce once to get the report text
+        rp = subprocess.run([os.path.join(tdir, "x86_64-unknown-linux-gnu", "release", "ops"), f], stdout=subprocess.PIPE, stderr=subprocess.STDOUT, text=True, env=env)
+        tagc = chk.crash_tag(rp.stdout)
+        merged["violations"].append({"property": "C03", "clause": "crash", "tag": tagc, "size": len(sess) or 10**6,
+                                     "detail": "libFuzzer input %s: %s" % (os.path.basename(f), chk.crash_summary(rp.stdout)),
+                                     "replay": {"kind": "session", "session": sess, "variant": "asan"} if sess.startswith("cmd=") else {"kind": "cmd", "cmd": "%s %s" % (os.path.join(tdir, "x86_64-unknown-linux-gnu", "release", "ops"), f)}})
+        k = "C03|crash|%s" % tagc
+        merged["violation_counts"][k] = merged["violation_counts"].get(k, 0) + 1
+    merged["wall"] = time.time() - t0
+    return merged
